@@ -406,6 +406,37 @@ def _pykin(case, out):
     return len(_onehot_expect(case)[1]) > 0
 
 
+def _kinpairs(case, out):
+    """kinetics.compute_diffusion_rates(system, species, a, b) for every ordered pair of distinct cells, the cells given as
+    linear indices and as coordinate tuples: the pair is accepted exactly when a and b are neighbours (the kinetics
+    functions use the same relation as the neighbour test; how a non-neighbour pair is refused is not pinned)."""
+    w, h, d = case["w"], case["h"], case["d"]
+    per = _per(case)
+    n = w * h * d
+    s = _onehot_system(dict(case, c=0))
+    for a in range(n):
+        for b in range(n):
+            if a == b:
+                continue
+            exp = L.related(w, h, d, per, a, b)
+            for form in ("index", "tuple"):
+                pa, pb = (a, b) if form == "index" else (tuple(L.coords_fast(w, h, d, a)), tuple(L.coords_fast(w, h, d, b)))
+                out.ops += 1
+                try:
+                    r = kinetics.compute_diffusion_rates(s, "A", pa, pb)
+                    got = True
+                    len(r)
+                except Exception:
+                    got = False
+                out.evals += 1
+                if got != exp:
+                    out.add(P + ":kinetics.compute_diffusion_rates:%s" % ("non-neighbours-accepted" if got else "neighbours-refused"),
+                            "cells %d=%s and %d=%s (given as %s) of %dx%dx%d periodic=%s: %s, reference relation says %s"
+                            % (a, L.coords_fast(w, h, d, a), b, L.coords_fast(w, h, d, b), form, w, h, d, list(per),
+                               "rates returned" if got else "refused", "neighbours" if exp else "not neighbours"))
+    return n >= 2
+
+
 def _engine(case, out):
     s = _onehot_system(case)
     sc = RDScript(s, t_sample=[0], time_step=DT, sampling_policy="on_iteration", t_max=DT / 2, rng_seed=1)
@@ -988,7 +1019,7 @@ def _carriers(case, out):
 
 
 SUBS = {"geom": _geom, "pykin": _pykin, "engine": _engine, "graph": _graph, "traj": _traj, "pygraph": _pygraph,
-        "history": _history, "copy": _copy, "carriers": _carriers, "trajsamp": _trajsamp}
+        "history": _history, "copy": _copy, "carriers": _carriers, "trajsamp": _trajsamp, "kinpairs": _kinpairs}
 
 
 def _run_case(case):
@@ -1030,6 +1061,9 @@ def _spaces(tier):
            and all((not p) or dim >= 3 for p, dim in zip(g["per"], (g["w"], g["h"], g["d"])))]
     sp.append(("pygraph: grids with <= %d cells whose periodic axes all have length >= 3: compute_dstatedt on grid vs "
                "on grid_to_graph(grid), heterogeneous network" % cap, pyg, 1))
+    sp.append(("kinpairs: all grids {1..%d}^3 x 8 with <= %d cells, every ordered pair of distinct cells as indices and as tuples: "
+               "kinetics.compute_diffusion_rates accepts the pair iff the cells are neighbours" % (N, cap),
+               [dict(g, sub="kinpairs") for g in grids if g["w"] * g["h"] * g["d"] <= cap], 4))
     sp.append(("geom: all grids {1..%d}^3 x 8: bijection, 4 position forms, outside positions, all ordered pairs, "
                "neighbour query" % N, [dict(g, sub="geom") for g in grids], 4))
     sp.append(("engine: every source cell of every grid {1..%d}^3 x 8: one native Euler step from a one-hot state" % N,
